@@ -231,16 +231,113 @@ type nestedSpec struct {
 	outerState int // 0 absent, 1 null (j2t), 2 present
 	outer      *jt.Prog
 	outerRoot  *tbin.Shape
+	// wrap: the struct is not the outer field's type itself but an element of it: "" (plain field), "list", "set",
+	// "map" (value under key "k") or "list<list>"; wrapped scenarios always present the outer field
+	wrap string
+}
+
+var wraps = []string{"", "list", "set", "map", "list<list>"}
+
+func wrapShape(s *tbin.Shape, w string) *tbin.Shape {
+	switch w {
+	case "list":
+		return tbin.ListS(s)
+	case "set":
+		return tbin.SetS(s)
+	case "map":
+		return tbin.MapS(tbin.Sc(tbin.STRING), s)
+	case "list<list>":
+		return tbin.ListS(tbin.ListS(s))
+	}
+	return s
+}
+
+func wrapVal(v *tbin.Val, w string) *tbin.Val {
+	switch w {
+	case "list":
+		return tbin.List(tbin.STRUCT, v)
+	case "set":
+		return tbin.Set(tbin.STRUCT, v)
+	case "map":
+		return tbin.Map(tbin.STRING, tbin.STRUCT, tbin.Str("k"), v)
+	case "list<list>":
+		return tbin.List(tbin.LIST, tbin.List(tbin.STRUCT, v))
+	}
+	return v
+}
+
+func wrapJSON(x *jt.J, w string) *jt.J {
+	switch w {
+	case "list", "set":
+		return jt.JArr(x)
+	case "map":
+		o := jt.JObj()
+		o.Add("k", x)
+		return o
+	case "list<list>":
+		return jt.JArr(jt.JArr(x))
+	}
+	return x
+}
+
+// unwrapJSON / unwrapVal: the single struct inside the wrapper the library wrote, nil if the wrapper is not of
+// the presented form (one element / one entry under "k")
+func unwrapJSON(x *jt.J, w string) *jt.J {
+	one := func(x *jt.J) *jt.J {
+		if x == nil || x.K != 'a' || len(x.A) != 1 {
+			return nil
+		}
+		return x.A[0]
+	}
+	switch w {
+	case "list", "set":
+		return one(x)
+	case "map":
+		if x == nil || x.K != 'o' || len(x.A) != 1 || string(x.Keys[0]) != "k" {
+			return nil
+		}
+		return x.A[0]
+	case "list<list>":
+		return one(one(x))
+	}
+	return x
+}
+
+func unwrapVal(v *tbin.Val, w string) *tbin.Val {
+	one := func(v *tbin.Val, t tbin.Type) *tbin.Val {
+		if v == nil || v.T != t || len(v.L) != 1 {
+			return nil
+		}
+		return v.L[0]
+	}
+	switch w {
+	case "list":
+		return one(v, tbin.LIST)
+	case "set":
+		return one(v, tbin.SET)
+	case "map":
+		if v == nil || v.T != tbin.MAP || len(v.L) != 1 || len(v.K) != 1 || !tbin.Equal(v.K[0], tbin.Str("k")) {
+			return nil
+		}
+		return v.L[0]
+	case "list<list>":
+		return one(one(v, tbin.LIST), tbin.LIST)
+	}
+	return v
 }
 
 const outerID, tailID = 10, 11
 
 func enumNested(tier, side string, from, to int, yield func(*scen) bool) {
 	for pi := from; pi < to; pi++ {
-		for outerReq := 0; outerReq < 3; outerReq++ {
+		for wo := 0; wo < 3*len(wraps); wo++ {
+			outerReq, wrap := wo%3, wraps[wo/3]
+			if wrap != "" && outerReq != 0 {
+				continue
+			}
 			inner := mkProgram(pi)
-			root := tbin.StructS(tbin.SField{ID: outerID, Name: "in", S: inner.root, Req: outerReq}, tbin.SField{ID: tailID, Name: "tail", S: tbin.Sc(tbin.I32), Req: 2})
-			op := jt.NewProg(fmt.Sprintf("nested-%d-%d", pi, outerReq), root)
+			root := tbin.StructS(tbin.SField{ID: outerID, Name: "in", S: wrapShape(inner.root, wrap), Req: outerReq}, tbin.SField{ID: tailID, Name: "tail", S: tbin.Sc(tbin.I32), Req: 2})
+			op := jt.NewProg(fmt.Sprintf("nested-%d-%d%s", pi, outerReq, wrap), root)
 			for i, f := range inner.fields {
 				if f.hasDef {
 					op.Set(inner.root, i, jt.FX{DefLit: f.lit, Def: f.def})
@@ -249,7 +346,7 @@ func enumNested(tier, side string, from, to int, yield func(*scen) bool) {
 			for _, po := range parseOpts() {
 				emit := func(co conv.Options, g generic.Options, on string) bool {
 					for outerState := 0; outerState < 3; outerState++ {
-						if outerState == 1 && side != "j2t" {
+						if outerState == 1 && side != "j2t" || wrap != "" && outerState != 2 {
 							continue
 						}
 						nin := 8
@@ -264,7 +361,7 @@ func enumNested(tier, side string, from, to int, yield func(*scen) bool) {
 								}
 							}
 							sc := &scen{side: side, p: inner, po: po, co: co, gopt: g, optName: on, state: states, order: orders[0],
-								nested: &nestedSpec{outerReq: outerReq, outerState: outerState, outer: op, outerRoot: root}}
+								nested: &nestedSpec{outerReq: outerReq, outerState: outerState, outer: op, outerRoot: root, wrap: wrap}}
 							if !yield(sc) {
 								return false
 							}
@@ -337,7 +434,7 @@ func (s *scen) runNested(r core.Result) core.Result {
 			j.Add("in", jt.JNull())
 		case 2:
 			x, _ := s.p.prog.Doc(innerVal, s.p.root, jt.DocOpt{})
-			j.Add("in", x)
+			j.Add("in", wrapJSON(x, n.wrap))
 		}
 		j.Add("tail", jt.JNum("42"))
 		doc := jt.Render(j, jt.Spell{})
@@ -347,7 +444,7 @@ func (s *scen) runNested(r core.Result) core.Result {
 	default:
 		v := tbin.Struct()
 		if n.outerState == 2 {
-			v.Fs = append(v.Fs, tbin.F(outerID, innerVal))
+			v.Fs = append(v.Fs, tbin.F(outerID, wrapVal(innerVal, n.wrap)))
 		}
 		v.Fs = append(v.Fs, tail)
 		msg := tbin.Bytes(v)
@@ -367,7 +464,10 @@ func (s *scen) runNested(r core.Result) core.Result {
 	}
 	r.Count("conversions", 1)
 	side := s.side + "-nested"
-	ctx := fmt.Sprintf("outer field %s, inner program %s\nparse options SetOptionalBitmap=%v UseDefaultValue=%v; options %s\ninput %s\noutput %q / %x err=%v", reqName[n.outerReq], s.p.name, s.po.SetOptionalBitmap, s.po.UseDefaultValue, s.optName, input, out, out, cerr)
+	if n.wrap != "" {
+		side += "-in-" + n.wrap
+	}
+	ctx := fmt.Sprintf("outer field %s"+map[bool]string{true: " holding the struct in a " + n.wrap}[n.wrap != ""]+", inner program %s\nparse options SetOptionalBitmap=%v UseDefaultValue=%v; options %s\ninput %s\noutput %q / %x err=%v", reqName[n.outerReq], s.p.name, s.po.SetOptionalBitmap, s.po.UseDefaultValue, s.optName, input, out, out, cerr)
 	if pi != nil {
 		r.Class = "panic"
 		r.Add(side+"|panic@"+pi.Site+":"+core.PanicClass(pi.Val), "%s\n%s\n%s", ctx, pi.Val, pi.Stack)
@@ -416,8 +516,8 @@ func (s *scen) runNested(r core.Result) core.Result {
 			return fail("present-field|altered", "tail member missing or changed")
 		}
 		if n.outerState == 2 {
-			if inJ == nil {
-				return fail("present-field|dropped", "presented struct member missing")
+			if inJ = unwrapJSON(inJ, n.wrap); inJ == nil {
+				return fail("present-field|dropped", "presented struct member missing (or not the one-element container presented)")
 			}
 			if v := s.judgeJSON(jt.Render(inJ, jt.Spell{})); v != nil {
 				return fail("inner:"+v.sig, "%s", v.detail)
@@ -457,7 +557,7 @@ func (s *scen) runNested(r core.Result) core.Result {
 		return fail("present-field|altered", "tail field missing or changed")
 	}
 	if n.outerState == 2 {
-		if inV == nil || inV.T != tbin.STRUCT || v.Fs[0].ID != outerID {
+		if inV = unwrapVal(inV, n.wrap); inV == nil || inV.T != tbin.STRUCT || v.Fs[0].ID != outerID {
 			return fail("present-field|dropped", "presented struct field missing or moved")
 		}
 		if vd := s.judgeThrift(tbin.Bytes(inV)); vd != nil {
